@@ -24,7 +24,7 @@ OUTCOMES_NOT_RUN = {"SKIP", "SKIP_UNCHANGED", "SKIP_PREVIOUS_FAILED", "PERSISTEN
 
 def gen_spec(rng, *, nt=(2, 6), marks=(), behs=("ok",), after_p=0.3, nomods=(1, 3), prodless_p=0.15,
              multi_prod_p=0.25, dens=0.5, user_markers=False, styles=("default", "annotated", "kwargs", "return"),
-             after_needs_prods=False, marks_below_p=0.0, link_p=0.0, dirprod_p=0.0, hashed_p=0.0, bag_p=0.0, subdir_p=0.0):
+             after_needs_prods=False, marks_below_p=0.0, link_p=0.0, dirprod_p=0.0, hashed_p=0.0, bag_p=0.0, subdir_p=0.0, pygroup_p=0.0):
     n = rng.randint(*nt)
     nmods = rng.randint(*nomods)
     tasks = []
@@ -91,6 +91,28 @@ def gen_spec(rng, *, nt=(2, 6), marks=(), behs=("ok",), after_p=0.3, nomods=(1, 
             if t["deps"] and t["beh"] == "ok" and rng.random() < bag_p:
                 k = rng.randint(1, len(t["deps"]))
                 t["bag"] = {"kind": rng.choice(["dict", "list", "tuple"]), "deps": sorted(rng.sample(t["deps"], k))}   # deps inside a container with plain values
+    if pygroup_p:
+        for t in tasks:
+            if not (t["prods"] and t["beh"] == "ok" and rng.random() < pygroup_p):
+                continue
+            k = rng.randint(2, 3)
+            bagged = (t.get("bag") or {}).get("deps", [])
+            cand = [d for d in t["deps"] if d in inputs and d not in bagged]
+            while len(cand) < k:                      # not enough input dependencies: give the task further inputs
+                free = [n for n in inputs if n not in t["deps"]]
+                if free:
+                    n = rng.choice(free)
+                else:
+                    n = max([x for u in tasks for x in u["deps"] + u["prods"]] + list(inputs)) + 1
+                    inputs[n] = rng.randint(1, 50)
+                    spec["inputs"][str(n)] = inputs[n]
+                t["deps"] = sorted(set(t["deps"]) | {n})
+                cand.append(n)
+            t["pyhash_group"] = {"kind": rng.choice(["tuple", "list", "grid"]), "deps": rng.sample(cand, k)}   # order = order inside the value
+            spec["nodelete"] = sorted(set(spec.get("nodelete", [])) | set(t["pyhash_group"]["deps"]))        # read at import time: never deleted
+            for n in t["pyhash_group"]["deps"]:       # three-digit contents (as every later write): the digit strings of a group cannot be cut in two
+                inputs[n] = rng.randint(100, 999)     # ways, i.e. the separator-less join of finding F3 (C12) is not hit by chance; F3 is replayed apart
+                spec["inputs"][str(n)] = inputs[n]
     if subdir_p:
         sd = {str(m): f"pkg{m}" for m in sorted({t["module"] for t in tasks}) if rng.random() < subdir_p}
         if sd:
@@ -199,6 +221,7 @@ def run_history(server, hist, ctx=None, keep=False, servers=None):
     """Executes hist on the real code. Returns list of records (one per step).
     servers: optional list of build servers (distinct PYTHONHASHSEEDs) to rotate through for the successive builds."""
     nbuild = 0
+    extra_dirs = []
     root = common.scratch_dir("eng")
     clock = project.Clock()
     spec = copy.deepcopy(hist["spec"])
@@ -217,6 +240,17 @@ def run_history(server, hist, ctx=None, keep=False, servers=None):
                     server = servers[nbuild % len(servers)]
                     nbuild += 1
                 opts = {"paths": [cfg["sub"]]} if cfg.get("sub") else {}           # build restricted to one sub-directory of the project
+                if cfg.get("via") == "rel":      # the same project addressed as ../<name> from a sibling working directory
+                    side = root.parent / (root.name + "_cwd")
+                    side.mkdir(exist_ok=True)
+                    extra_dirs.append(side)
+                    opts = {"cwd": str(side), "raw_paths": [f"../{root.name}"]}
+                elif cfg.get("via") == "link":   # ... or through a symbolic link to the project directory
+                    alias = root.parent / (root.name + "_alias")
+                    if not alias.is_symlink():
+                        alias.symlink_to(root, target_is_directory=True)
+                    extra_dirs.append(alias)
+                    opts = {"raw_paths": [str(alias)]}
                 obs = server.build(root, builder.cfg_to_kw(cfg), env=step[2] if len(step) > 2 else None, **opts)
                 obs["log"] = project.read_log(root)
                 post = project.snapshot_nodes(root, spec)
@@ -227,6 +261,13 @@ def run_history(server, hist, ctx=None, keep=False, servers=None):
                 p = project.node_path(root, step[1])
                 if p.exists():
                     project.write_file(p, p.read_text(), clock)
+            elif kind == "flag":       # ("flag", task, 0|1): untracked failure switch read by the task body
+                f = root / "flags" / f"t{step[1]}"
+                if step[2]:
+                    f.parent.mkdir(exist_ok=True)
+                    f.write_text("1")
+                else:
+                    f.unlink(missing_ok=True)
             elif kind == "delete":
                 p = project.node_path(root, step[1])
                 (p.resolve() if p.is_symlink() else p).unlink(missing_ok=True)   # a link stays, its target goes
@@ -259,6 +300,11 @@ def run_history(server, hist, ctx=None, keep=False, servers=None):
     finally:
         if not keep:
             shutil.rmtree(root, ignore_errors=True)
+        for d in extra_dirs:
+            if d.is_symlink():
+                d.unlink(missing_ok=True)
+            else:
+                shutil.rmtree(d, ignore_errors=True)
 
 
 # ------------------------------------------------------------------------------------------------
@@ -280,6 +326,7 @@ def replay_in_model(drv, hist, records, sel_eval=None):
     """Feeds the same history to the Lean engine; returns list of (step index, what, impl, model) disagreements."""
     out = []
     spec = hist["spec"]
+    flagged = set()      # tasks whose untracked failure switch is on: the body raises early, module content unchanged
     for ln in project.model_lines(spec):
         drv.ask(ln)
     drv.ask(project.model_fs_line(spec, {int(k): v for k, v in spec["inputs"].items()}))
@@ -294,6 +341,10 @@ def replay_in_model(drv, hist, records, sel_eval=None):
             if obs.get("raised") or obs.get("died") or any(p is None for p in picks):
                 out.append((i, "build() raised or unknown task names", obs.get("raised"), None))
                 break
+            for t in spec["tasks"]:
+                if t["id"] in flagged:
+                    for ln in project.model_lines({**spec, "tasks": [{**t, "beh": "early"}]})[1:]:
+                        drv.ask(ln)
             outside = []
             if rec["cfg"].get("sub"):
                 sd = spec.get("subdirs", {})
@@ -336,6 +387,15 @@ def replay_in_model(drv, hist, records, sel_eval=None):
                 drv.ask(f"engine.fs set={step[1]}:{step[2]} del=")
             elif kind == "touch":
                 pass
+            elif kind == "flag":
+                if step[2]:
+                    flagged.add(step[1])
+                else:
+                    flagged.discard(step[1])
+                    for t in spec["tasks"]:
+                        if t["id"] == step[1]:
+                            for ln in project.model_lines({**spec, "tasks": [t]})[1:]:
+                                drv.ask(ln)
             elif kind == "delete":
                 drv.ask(f"engine.fs set= del={step[1]}")
             elif kind in ("bump", "setver", "setbeh", "respec"):
